@@ -12,6 +12,7 @@ TRUSTED_BASE = [
     "Lean 4.33.0 kernel (leanchecker re-check in the thorough tier)",
     "axioms allowed in any property theorem: propext, Classical.choice, Quot.sound (audited by #print-axioms-style collection on every run)",
     "harness/extract.py regenerates lean/Acra/Gen/*.lean (constants, struct formats, tables) from /repo on every run",
+    "harness/translate.py translates the current source of the pure helper functions of the SRC tables to lean/Acra/Gen/Src/*.lean on every run (restricted subset, refuses anything else; semantics in lean/Acra/Py/IntOps.lean); the theorems src_* tie each translation to the hand-written model for all inputs",
     "hand-written Lean models are tied to the code only by the differential correspondence check on the operations generated in this run",
     "the Lean driver's line parser/printer and harness/core.py canonicalisation",
     "little-endian host for native-order struct codes; zlib.crc32 = IEEE 802.3 CRC-32; socket.inet_aton/ntoa = dotted quad; sorted() stable",
@@ -70,6 +71,21 @@ def regenerate():
     errors, changed = extract.generate()
     return errors, changed
 
+def source_translated(pid, pr):
+    """the Python functions whose current source was translated to Lean on this run for this property
+    (harness/translate.py), each with its tie theorem and whether that theorem was built and passed the audit"""
+    try:
+        from . import translate
+        out = []
+        for r in translate.LAST_REPORT:
+            if r.get("property") != pid:
+                continue
+            axs = pr["theorems"].get(r.get("tie_theorem"))
+            out.append(dict(r, tie_discharged=bool(r.get("translated")) and axs is not None and set(axs) <= ALLOWED_AXIOMS))
+        return out
+    except Exception as e:
+        return [{"error": repr(e)}]
+
 def prop_modules(pid):
     d = os.path.join(core.LEAN_DIR, "Acra", "Props", pid)
     files = sorted(glob.glob(os.path.join(d, "*.lean")))
@@ -117,7 +133,9 @@ def prove(pid, thorough=False):
                 rc1, out1 = sh(["lake", "build", m], cwd=core.LEAN_DIR)
                 built[m] = rc1 == 0
                 if rc1 != 0:
-                    res["failed"].append("module %s does not build: %s" % (m, _first_error(out1)))
+                    names = _broken_theorems(out1)
+                    res["failed"].append("module %s does not build%s: %s" % (
+                        m, (" (broken: %s)" % ", ".join(names)) if names else "", _first_error(out1)))
             rcd, outd = sh(["lake", "build", "driver"], cwd=core.LEAN_DIR)
             if rcd != 0:
                 res["failed"].append("driver does not build: " + _first_error(outd))
@@ -163,6 +181,25 @@ def prove(pid, thorough=False):
             if rc3 != 0:
                 res["failed"].append("leanchecker rejected the property modules: " + _first_error(out3))
     return res
+
+def _broken_theorems(out):
+    """names of the theorems / definitions that enclose the error positions of a failed `lake build`"""
+    names = []
+    for m in re.finditer(r"error: (\S+?\.lean):(\d+):\d+", out):
+        path, line = m.group(1), int(m.group(2))
+        if not os.path.isabs(path):
+            path = os.path.join(core.LEAN_DIR, path)
+        try:
+            src = open(path).read().split("\n")
+        except OSError:
+            continue
+        for i in range(min(line, len(src)) - 1, -1, -1):
+            mm = re.match(r"\s*(?:private\s+|protected\s+)?(?:theorem|def|lemma|example|instance)\s+(\S+)", src[i])
+            if mm:
+                if mm.group(1) not in names:
+                    names.append(mm.group(1))
+                break
+    return names
 
 def _first_error(out):
     for line in out.split("\n"):
@@ -385,6 +422,7 @@ def run_check(pid, tier, seed):
             "modules": pr["modules"],
             "leanchecker": pr.get("leanchecker", "not run in this tier"),
             "regenerated": {"errors": regen_errors, "changed": regen_changed},
+            "source_translated": source_translated(pid, pr),
             "evaluations": corr["n"] + ctx.stats.get("oracle_evaluations", 0),
             "distinct_nontrivial": corr["distinct_nontrivial"],
             "rule": getattr(mod, "RULE", "correspondence request lines generated from VERIF_SEED; a line is non-trivial when the implementation's answer contains a successful result; distinct = distinct request text"),
